@@ -718,7 +718,14 @@ class Parser(ExprParser):
         if self.have("REAL"):
             value = float(value)
         elif self.have("INTEGER"):
-            value = int(value)
+            if len(value) > 1 and value[0] == "0" and value.isdigit():
+                # A C octal literal: 010 is 8.
+                try:
+                    value = int(value, 8)
+                except ValueError:
+                    self.error_msg("Invalid octal literal '{}'", value)
+            else:
+                value = int(value)
         elif self.have("DQUOTE"):
             value = value
         elif self.have("SQUOTE"):
